@@ -41,7 +41,7 @@ static void work_tr(long lo, long hi, struct res *r, void *arg) {
     for (long k = lo; k < hi; k++) {
         E.clock[0] = R_EPOCH + (uint64_t)k * R_STEP + (uint64_t)(k * 2551 % R_STEP);
         for (int i = 0; i < 19; i++) E.tape[0][i] = (uint8_t)(k * 31 + i * 7);
-        polyseed_data *s = NULL; char rep[64], key[64]; sprintf(rep, "case %llu", (unsigned long long)E.clock[0]);
+        polyseed_data *s = NULL; char rep[64], key[64]; sprintf(rep, "tr %ld", k);
         if (polyseed_create((unsigned)k & 7, &s) != POLYSEED_OK) { res_viol(r, "c11:create", rep, "create failed"); continue; }
         uint64_t B0 = polyseed_get_birthday(s), want = R_EPOCH + (uint64_t)k * R_STEP; r->cases++; r->calls += 2;
         int bad = (B0 != want);
@@ -56,10 +56,14 @@ static void work_tr(long lo, long hi, struct res *r, void *arg) {
             r->calls += 4;
         }
         polyseed_crypt(s, "pw"); if (polyseed_get_birthday(s) != B0) bad |= 8;
+        /* ... and while the seed is encrypted: its image and its phrase carry the same birthday */
+        { uint8_t se[32]; polyseed_store(s, se); d = NULL; if (polyseed_load(se, &d) != POLYSEED_OK || polyseed_get_birthday(d) != B0) bad |= 16; if (d) polyseed_free(d);
+          int li = (int)(k % R_NLANG); polyseed_str ph; polyseed_encode(s, polyseed_get_lang(li), (polyseed_coin)(k & 2047), ph); d = NULL; const polyseed_lang *lo_ = NULL;
+          if (polyseed_decode(ph, (polyseed_coin)(k & 2047), &lo_, &d) != POLYSEED_OK || polyseed_get_birthday(d) != B0) bad |= 16; if (d) polyseed_free(d); r->calls += 6; }
         polyseed_crypt(s, "pw"); if (polyseed_get_birthday(s) != B0) bad |= 8;
         polyseed_free(s); r->calls += 5;
         r->digest ^= mix64(k, B0);
-        if (bad) { snprintf(key, sizeof key, "c11:transform:%d", bad); res_viol(r, key, rep, "month index %ld: birthday %llu (expected %llu) not preserved (flags %d: 1=create 2=store/load 4=encode/decode 8=crypt)", k, (unsigned long long)B0, (unsigned long long)want, bad); }
+        if (bad) { snprintf(key, sizeof key, "c11:transform:%d", bad); res_viol(r, key, rep, "month index %ld: birthday %llu (expected %llu) not preserved (flags %d: 1=create 2=store/load 4=encode/decode 8=crypt 16=store/load or encode/decode of the encrypted seed)", k, (unsigned long long)B0, (unsigned long long)want, bad); }
         else { r->validated++; r->cls[3]++; }
     }
     if (r->nsample < 1 && lo < hi) res_sample(r, "month index %ld through store/load, 10 languages, crypt x2", lo);
@@ -156,6 +160,11 @@ int main(int argc, char **argv) {
         printf("TZ=%s libc clock %llu -> birthday %llu (reference %llu)\n", argv[a + 1], (unsigned long long)t, (unsigned long long)B, (unsigned long long)want);
         if (B != want) { printf("REPRODUCED c11:default-clock\n"); return 1; }
         return 0;
+    }
+    if (a + 1 < argc && !strcmp(argv[a], "tr")) {      /* tr <month index>: one row of the transform sweep */
+        long k = atol(argv[a + 1]); work_tr(k, k + 1, r, NULL);
+        for (int i = 0; i < r->nviol; i++) printf("REPRODUCED %s: %s\n", r->v[i].key, r->v[i].msg);
+        return r->nviol ? 1 : 0;
     }
     if (a < argc && !strcmp(argv[a], "case")) {
         uint64_t t = strtoull(argv[a + 1], NULL, 10);
